@@ -282,7 +282,26 @@ class _Conv:
             return ('bin', n.operator, self.expr(n.operand1), self.expr(n.operand2))
         if c == 'LambdaNode':
             return ('other', 'lambda')
-        if c in ('ComprehensionNode', 'GeneratorExpressionNode', 'InlinedGeneratorExpressionNode'):
+        if c == 'ComprehensionNode':
+            # [elt for target in iterable (if cond)*] with one generator: the same ('comp', kind, elt, generators) node the Python front end builds
+            try:
+                lp = n.loop
+                if type(lp).__name__ == 'ForInStatNode' and lp.else_clause is None:
+                    seq = getattr(lp.iterator, 'sequence', lp.iterator)
+                    tgt, it = self.expr(lp.target), self.expr(seq)
+                    body = lp.body
+                    conds = []
+                    while type(body).__name__ == 'IfStatNode' and len(body.if_clauses) == 1 and body.else_clause is None:
+                        conds.append(self.expr(body.if_clauses[0].condition))
+                        body = body.if_clauses[0].body
+                    if type(body).__name__ == 'ExprStatNode' and type(body.expr).__name__ == 'ComprehensionAppendNode':
+                        body = body.expr
+                    if type(body).__name__ == 'ComprehensionAppendNode':
+                        return ('comp', 'list', self.expr(body.expr), ((tgt, it, tuple(conds)),))
+            except Exception:  # noqa
+                pass
+            return ('other', 'comprehension')
+        if c in ('GeneratorExpressionNode', 'InlinedGeneratorExpressionNode'):
             return ('other', 'comprehension')
         if c in ('YieldExprNode',):
             return ('call', ('var', '__yield__'), (self.expr(n.arg),) if n.arg is not None else (), ())
